@@ -286,6 +286,37 @@ def run(trace, render=None, color=False, snapshot_db=True):
             S.ctl.process_command(command_text(evrec['in']))
             observe(evrec)
 
+    if trace.get('mode') == 'iface':
+        # the connection-id interface used directly (as the GDB plugin does): no parser bookkeeping
+        try:
+            for evrec in events:
+                ev = evrec['in']
+                evrec['_nh_before'] = len(S.hist())
+                if ev['e'] == 'open':
+                    role = {'client': False, 'server': True, 'unknown': None}[ev['role']]
+                    S.cm.open_connection(0.0, ev['tag'], role)
+                    S.tagconn[ev['tag']] = len(S.cm.connections())
+                elif ev['e'] == 'close':
+                    S.cm.close_connection(0.0, ev['tag'])
+                elif ev['e'] == 'msg':
+                    cid, msg = m.parse.message(printer.line(dict(ev, tag=''), **render))
+                    S.cm.message(ev['tag'], msg)
+                elif ev['e'] == 'cmd':
+                    S.ctl.process_command(command_text(ev))
+                else:
+                    raise MachineryError('event %s not possible at the connection-id interface' % ev['e'])
+                observe(evrec)
+        except MachineryError:
+            raise
+        except BaseException:
+            import traceback
+            trace['escaped'] = traceback.format_exc()[-2000:]
+            for evrec in events:
+                evrec.pop('_nh_before', None)
+                if 'obs' not in evrec:
+                    evrec['obs'] = {'items': []}
+        return trace
+
     class F:
         def readline(self_inner):
             if state['pending'] is not None:
@@ -303,7 +334,8 @@ def run(trace, render=None, color=False, snapshot_db=True):
             evrec['_nh_before'] = len(S.hist())
             if ev['e'] == 'msg':
                 return ev.get('line') or (printer.line(ev, **render) + '\n')
-            return ev['raw'] + '\n' if 'raw' in ev else ev['text'] + '\n'
+            text = ev['raw'] if 'raw' in ev else ev['text']
+            return text if ev.get('nonl') else text + '\n'
 
     try:
         m.parse.into_sink(F(), S.output, S.cm)
